@@ -86,6 +86,7 @@ def run(ctx, R, tier):
     from .c03 import fade_continuity
     fade_continuity(F, R, rule='B.C06.fade-continuity')
     defaults_match(F, R)
+    duration_interp(F, R)
     # 'with the built-in easings the value never leaves the interval': their powers stay inside their domain (A.singular)
     from ..enginea import run_singular_only
     run_singular_only(R, F, lambda fn: fn.startswith('tween::'), floor=2)
@@ -411,3 +412,19 @@ def defaults_match(F, R, rule='B.C06.defaults'):
                         '%s initialises the parameter `%s` with the fallback %s (the default of another setting)' % (b.path, f, name),
                         detail={'field': f, 'default': name}, where=b.where(bb))
     R.floor(rule, n, 4)
+
+
+def duration_interp(F, R, rule='B.C06.interp'):
+    """"Follows start + (target - start) x ease(..)" for the one Tweenable that cannot be negative: a Duration is interpolated
+    through signed seconds - `a_secs + (b_secs - a_secs) * amount` - so that it moves towards a SHORTER target as well as
+    towards a longer one (a saturating or absolute difference only ever moves one way)."""
+    b = F.body('<std::time::Duration as tween::tweenable::Tweenable>::interpolate')
+    if not R.check(b is not None, rule, 'anchor', 'Tweenable for Duration not found'):
+        return
+    uns = [(callee_path(t) or '').split('::')[-1] for _, t in b.calls() if (callee_path(t) or '').split('::')[-1] in ('saturating_sub', 'abs_diff', 'checked_sub', 'saturating_add')]
+    ds = [describe(b, t['args'][0], depth=8, at=bb) for bb, t in b.calls() if (callee_path(t) or '').endswith(('try_from_secs_f64', 'from_secs_f64'))]
+    want = 'Add(Mul(Sub(std::time::Duration::as_secs_f64(&b), std::time::Duration::as_secs_f64(&a)), amount), std::time::Duration::as_secs_f64(&a))'
+    from ..paths import parse_term
+    ok = not uns and bool(ds) and all(('Sub(std::time::Duration::as_secs_f64(&b), std::time::Duration::as_secs_f64(&a))' in d) for d in ds)
+    R.check(ok, rule, 'Duration', 'Duration::interpolate builds its result from %s%s' % ([d[:100] for d in ds], (' using ' + ', '.join(uns)) if uns else ''),
+            detail={'seconds': ds[:1]}, where=b.file)
